@@ -25,6 +25,7 @@ import (
 	"sync"
 
 	rocksdb "github.com/facebookincubator/dns/dnsrocks/cgo-rocksdb"
+	"github.com/facebookincubator/dns/dnsrocks/zzverif/nd"
 )
 
 // VerifSnap is an immutable version of the store: keys sorted bytewise, unique.
@@ -132,7 +133,13 @@ type verifIter struct {
 	db    *VerifDB
 }
 
+// VerifNoYield suppresses pre-emption points while a harness builds a store.
+var VerifNoYield bool
+
 func (d *VerifDB) touch() {
+	if !VerifNoYield {
+		nd.Yield() // every storage operation is a pre-emption point for schedule exploration
+	}
 	d.Uses++
 	if d.Closed {
 		d.UseAfterClose++
@@ -353,4 +360,10 @@ func VerifEncodeValues(vals [][]byte) []byte {
 		out = append(out, v...)
 	}
 	return out
+}
+
+// VerifModelOf returns the model behind an *RDB built by VerifNewRDB.
+func VerifModelOf(r *RDB) *VerifDB {
+	m, _ := r.db.(*VerifDB)
+	return m
 }
